@@ -844,6 +844,7 @@ func main() {
 	var rqs []*rqCase
 	var rds []*rdCase
 	var lvs []*lvCase
+	var fes []*feCase
 	config.PrefetchRate = 768 * 1024
 	switch os.Args[1] {
 	case "gen":
@@ -851,6 +852,8 @@ func main() {
 			if *prop == "C02" {
 				if i%4 == 3 {
 					lvs = append(lvs, genLv(r, i))
+				} else if i%4 == 1 {
+					fes = append(fes, genFe(r, i))
 				} else {
 					rds = append(rds, genRd(r, i))
 				}
@@ -879,6 +882,14 @@ func main() {
 			json.Unmarshal(wrap.Case, &c)
 			c.ID = 0
 			rds = append(rds, &c)
+		} else if probe.Kind == "fe" {
+			// concurrent reads: several chances
+			for i := 0; i < 5; i++ {
+				var c feCase
+				json.Unmarshal(wrap.Case, &c)
+				c.ID = i
+				fes = append(fes, &c)
+			}
 		} else if probe.Kind == "lv" {
 			for i := 0; i < 5; i++ {
 				var c lvCase
@@ -934,6 +945,26 @@ func main() {
 		}
 		naudits += len(c.Ops)
 	}
+	var feterms []string
+	if len(fes) > 0 {
+		mux := feMux()
+		for _, c := range fes {
+			func() {
+				defer func() {
+					if x := recover(); x != nil {
+						fmt.Printf("HARNESS-VIOLATION %d panic in a front-end read: %v\n", c.ID, x)
+					}
+				}()
+				runFe(c, mux)
+			}()
+			feterms = append(feterms, feTerm(c))
+			for _, q := range c.Reqs {
+				ops["fe/"+q.Via+"/"+q.Spec]++
+				distinct[fmt.Sprintf("fe/%d/%d/%d/%d", c.ID, q.Status, q.Start, q.Cnt)] = true
+			}
+			naudits += len(c.Reqs)
+		}
+	}
 	for _, c := range lvs {
 		runLv(c)
 		lvterms = append(lvterms, lvTerm(c))
@@ -981,6 +1012,10 @@ func main() {
 		b, _ := json.Marshal(c)
 		jf.Write(append(b, '\n'))
 	}
+	for _, c := range fes {
+		b, _ := json.Marshal(c)
+		jf.Write(append(b, '\n'))
+	}
 	jf.Close()
 	nshard := 0
 	writeShards := func(terms []string, per int, header, typ, defs string) {
@@ -1001,6 +1036,7 @@ func main() {
 		h := "From Storrent Require Import Base.Bytes Model.Reader Check.ReaderCheck.\nOpen Scope Z_scope.\n"
 		writeShards(rdterms, 12, h, "rdcase", "Definition BC := Eval vm_compute in bad_corr_rd cases.\nDefinition BM := Eval vm_compute in bad_monitor_rd cases.\nPrint BC. Print BM.\n")
 		writeShards(lvterms, 20, h, "lvcase", "Definition BM := Eval vm_compute in bad_monitor_lv cases.\nPrint BM.\n")
+		writeShards(feterms, 20, h, "fecase", "Definition BC := Eval vm_compute in bad_corr_fe cases.\nDefinition BM := Eval vm_compute in bad_monitor_fe cases.\nPrint BC. Print BM.\n")
 	} else if *prop == "C10" {
 		h := "From Storrent Require Import Base.Bytes Model.Requested Check.RequestedCheck.\nOpen Scope N_scope.\n"
 		writeShards(rterms, 10, h, "rqcase", "Definition BC := Eval vm_compute in bad_corr_rq cases.\nDefinition BM := Eval vm_compute in bad_monitor_rq cases.\nPrint BC. Print BM.\n")
@@ -1022,7 +1058,7 @@ func main() {
 	}
 	rule := "one evaluation = one audit of Torrent.inFlight / Torrent.available against the requests held and pieces advertised by the connected peers, at a quiescent point of a scenario run on the real event handler with real peer goroutines and scripted remote peers; distinct = new (scenario, counters, number of peers)"
 	if *prop == "C02" {
-		rule = "one evaluation = one Seek or Read on a real tor.Reader over a fully available torrent (result, error, position and the bytes compared with the torrent's content), or one Read of a liveness scenario (honest seed connected, pieces evicted between reads, context cancelled, torrent deleted, reader closed) with a 6 s watchdog; distinct = new (case, result, error, position)"
+		rule = "one evaluation = one Seek or Read on a real tor.Reader over a fully available torrent (result, error, position and the bytes compared with the torrent's content), or one HTTP request (with or without a Range header, through the real handler: status, Content-Range and body against the file's content) or FUSE read (several at once on one handle) on a real multi-file torrent, or one Read of a liveness scenario (honest seed connected, pieces evicted between reads, context cancelled, torrent deleted, reader closed) with a 6 s watchdog; distinct = new (case, result, error, position)"
 	}
 	if *prop == "C10" {
 		rule = "one evaluation = one operation on a real tor.Requested (return values, entries and the closed state of every channel handed out compared with the model), or one audit at a quiescent point of a scenario on the real event handler (which waiting consumers have been woken, which pieces are verified, Torrent.requested against the priorities the consumers hold); distinct = new (case, entries, closed channels)"
